@@ -14,10 +14,11 @@ LABELSETS = {
     "small": [0, 1, 2, 3, 4, 5, 6],
     "big": [-3, 10**12, 7, -100, 42, 1000, 5],
     "str": ["u", "v", "w", "xx", "y", "zed", "k9"],
+    "numstr": ["1", "2", "10", "9", "03", "21", "100"],  # strings that sort differently from the numbers they spell
 }
 LAYERS = ["a", "b", "c"]
 MD_KEYS = ["k", "col", "x"]
-MD_VALUES = [0, 1, 2, "r", "s", True, None, 1.5, [1, 2], [2, 1], {"z": 1}, "blue", 3, ["b", "a", "c"]]
+MD_VALUES = [0, 1, 2, "r", "s", True, None, 1.5, [1, 2], [2, 1], {"z": 1}, "blue", 3, ["b", "a", "c"], "", False, [], {}, 0.0]
 CRIT_VALUES = [2, 3, "r", "s", "blue"]
 
 OPS = {
@@ -475,7 +476,7 @@ class Gen:
 
 
 def gen_config(rng, kind, tier, extra_ops=(), extra_weight=1.0):
-    lab = rng.choice(["small", "small", "big", "str"])
+    lab = rng.choice(["small", "small", "big", "str", "numstr"])
     usize = rng.randint(3, 7)
     cfg = {
         "kind": kind,
